@@ -7,7 +7,10 @@ RULE = ('Hypothesis: line lists (blank, whitespace-only, leading/trailing blanks
         'configurations (spaces 0..12 / default / tab; no bullets, ALL, FIRST_ONLY; glyphs of 1-8 '
         'non-blank characters), applied 1-3 times, through to_list, to_str and TextBlock.indent '
         'with/without header; oracle: direct specification of the prefix per line (compared modulo '
-        'trailing whitespace, plus "no line gains trailing whitespace"), list form == string form. '
+        'trailing whitespace, plus "no line gains trailing whitespace"), list form == string form; '
+        'histories of 3-9 steps in which several indenters (constructor, the two prefab creation '
+        'functions) are made, the module default is overridden, one is reconfigured in place and each '
+        'is used: every indenter follows the configuration it was made with. '
         'Non-trivial: >= 2 lines, one of them blank, bullet configuration; distinct by case hash.')
 ASSUMPTIONS = ['lines contain no line breaks and only space/tab as whitespace',
                'glyphs consist of non-blank characters',
@@ -154,6 +157,77 @@ def check_textblock(case):
     compare(tb2.lines, spec({'tab': False, 'n': None, 'bullet': None}, src), src, 'default indent')
 
 
+PREFABS = {'all_dashes': 'ALL', 'initial_dash': 'FIRST_ONLY'}
+
+
+def check_history(case):
+    """Several indenters live side by side: made by the constructor and by the two prefab creation
+    functions (in any order, any number of times), the module default overridden in between (a
+    documented use), one of them reconfigured in place by its owner.  Every indenter keeps indenting
+    by the configuration it was made with."""
+    from dznpy import text_gen
+    from dznpy.text_gen import BulletListMode, Indentor, TextBlock
+    old_default = text_gen.DEFAULT_INDENT_NR_SPACES
+    made = []  # (indentizer, cfg it must follow | None when its owner reconfigured it)
+    default_n = old_default
+    try:
+        for step in case['steps']:
+            op = step[0]
+            if op == 'make':
+                c = dict(step[1])
+                if c['n'] is None:
+                    c = dict(c, n=default_n)  # the default in force when it was made
+                made.append([mk(step[1]), c])
+            elif op in PREFABS:
+                fn = text_gen.all_dashes_t if op == 'all_dashes' else text_gen.initial_dash_t
+                how = step[1]
+                ind = fn() if how == 'default' else fn(None) if how == 'none' else \
+                    fn(Indentor.TAB) if how == 'tab' else fn(Indentor.SPACES)
+                made.append([ind, {'tab': how == 'tab', 'n': 2,
+                                   'bullet': {'mode': PREFABS[op], 'glyph': None}}])
+            elif op == 'set_default':
+                text_gen.DEFAULT_INDENT_NR_SPACES = step[1]
+                default_n = step[1]
+            elif op == 'reconfigure' and made:
+                ent = made[step[1] % len(made)]
+                if ent[0].bullet_list is not None:
+                    cur = ent[0].bullet_list.mode
+                    ent[0].bullet_list.mode = BulletListMode.ALL \
+                        if cur == BulletListMode.FIRST_ONLY else BulletListMode.FIRST_ONLY
+                    ent[1] = None  # its own behaviour is its owner's business from now on
+            elif op == 'use' and made:
+                k = step[1] % len(made)
+                ind, c = made[k]
+                if c is None:
+                    continue
+                src = list(case['lines'])
+                what = f'indenter #{k} ({c}) after {case["steps"].index(step)} steps'
+                if step[2] == 'block':
+                    tb = TextBlock(list(src))
+                    tb.indent(ind)
+                    got_str = str(tb)
+                    compare(tb.lines, spec(c, src), src, what + ' via TextBlock.indent')
+                    if got_str != ''.join(l + '\n' for l in tb.lines):
+                        raise Fail(f'{what}: string form {got_str!r}', 'history-str')
+                else:
+                    compare(ind.to_list(src), spec(c, src), src, what + ' via to_list')
+    finally:
+        text_gen.DEFAULT_INDENT_NR_SPACES = old_default
+
+
+history_steps = st.lists(st.one_of(
+    st.tuples(st.just('make'), cfg),
+    st.tuples(st.sampled_from(['all_dashes', 'initial_dash']),
+              st.sampled_from(['default', 'spaces', 'tab', 'none'])),
+    st.tuples(st.sampled_from(['all_dashes', 'initial_dash']),
+              st.sampled_from(['default', 'spaces', 'tab', 'none'])),
+    st.tuples(st.just('set_default'), st.integers(0, 9)),
+    st.tuples(st.just('reconfigure'), st.integers(0, 5)),
+    st.tuples(st.just('use'), st.integers(0, 5), st.sampled_from(['list', 'block'])),
+    st.tuples(st.just('use'), st.integers(0, 5), st.sampled_from(['list', 'block']))),
+    min_size=3, max_size=9)
+
+
 def nontrivial(c):
     ls = c['lines']
     return len(ls) >= 2 and any(is_blank(l) for l in ls) and c['cfg']['bullet'] is not None
@@ -187,3 +261,9 @@ def run(ctx):
         'times': st.integers(1, 3),
         'header': st.one_of(st.none(), st.lists(hdr_line, min_size=1, max_size=2))}),
         check_textblock, max(1, n // 2), nontrivial=nontrivial, labels=labels)
+    ctx.clause('history', st.fixed_dictionaries({'steps': history_steps, 'lines': lines}),
+               check_history, max(1, n // 3),
+               nontrivial=lambda c: len(c['lines']) >= 2 and
+               len({s[0] for s in c['steps']} & {'make', 'all_dashes', 'initial_dash'}) >= 2 and
+               any(s[0] == 'use' for s in c['steps']),
+               labels=lambda c: ['history'] + sorted({s[0] for s in c['steps']}))
